@@ -144,10 +144,19 @@ def reject_programs():
     def build(draw):
         prog = draw(G.programs(max_statements=3, max_leaves=4, verbatim=False, named_periods=False))
         ref = G.Reference(prog)
-        kind = draw(st.sampled_from(['var-as-param', 'var-as-error', 'param-and-error', 'double-definition']))
+        kind = draw(st.sampled_from(['var-as-param', 'var-as-error', 'param-and-error', 'double-definition',
+                                     'double-definition-label']))
         target = draw(st.integers(0, len(prog) - 1))
         s = prog[target]
-        if kind == 'double-definition':
+        if kind == 'double-definition-label':
+            # the same right-hand side except for the period label of one term ('p 0' / 'p  0' / tab): different periods
+            a, b = draw(st.sampled_from([("'p 0'", "'p  0'"), ('"p 0"', '"p\t0"'), ("'a b'", "'a  b'"), ("'p0'", "'p1'")]))
+            term = lambda lab: ['var', s[1][1] if draw(st.booleans()) else 'Q', 'v', ['q', lab]]  # noqa: E731
+            name = draw(st.sampled_from(['Q', 'X']))
+            s1 = ['assign', ['var', s[1][1], 'v', s[1][3]], ['bin', '+', s[2], ['var', name, 'v', ['q', a]]]]
+            s2 = ['assign', ['var', s[1][1], 'v', s[1][3]], ['bin', '+', s[2], ['var', name, 'v', ['q', b]]]]
+            prog = prog[:target] + [s1] + prog[target + 1:] + [s2]
+        elif kind == 'double-definition':
             other = ['bin', '+', s[2], ['num', '1']]
             new = ['assign', ['var', s[1][1], 'v', s[1][3]], other]
             prog = prog + [new] if draw(st.booleans()) else [new] + prog
